@@ -99,6 +99,12 @@ func changeCase(kind string, s txgen.TxSpec, q feegen.Quote, d dest, hyp bool) {
 	if (err != nil || pan) && added {
 		c.Violate(site+"/error-modifies-tx", fmt.Sprintf("err %v panic %v", err, pan), tw)
 	}
+	if pan && hyp {
+		c.Violate(site+"/panic", "the change operation panicked", tw)
+	}
+	if d.Kind == "existing" && d.Index >= uint64(len(s.Outs)) && d.Index < 1<<63 && (pan || err == nil) {
+		c.Violate(site+"/invalid-index-not-rejected", fmt.Sprintf("index %d of %d outputs: err %v panic %v", d.Index, len(s.Outs), err, pan), tw)
+	}
 	if d.Kind == "existing" {
 		if len(after.Outs) != len(s.Outs) {
 			c.Violate(site+"/outputs-touched", "output count changed", tw)
@@ -327,12 +333,15 @@ func main() {
 				for di, d := range dests(r, nout) {
 					rels := []int{0, 1, 2, 3, 4, 5}
 					if !thorough && nout > 2 {
-						// quick tier, large transactions: both sides of the dust boundary
+						// quick tier, large transactions: the smallest change (and for a third also the largest no-change)
 						// at the 252/253 varint boundary; away from it a rotating third of the destinations
 						if nout == 252 || nout == 253 {
-							rels = []int{2, 3}
+							rels = []int{3}
+							if (qi+di)%3 == 0 {
+								rels = []int{2, 3}
+							}
 						} else if (qi+di)%3 == 0 {
-							rels = []int{3, []int{1, 2, 5}[(qi+di/3)%3]}
+							rels = []int{[]int{1, 2, 3, 5}[(qi+di/3)%4]}
 						} else {
 							continue
 						}
@@ -406,6 +415,6 @@ func main() {
 	for _, j := range jobs {
 		changeCase(j.kind, j.s, j.q, j.d, j.hyp)
 	}
-	c.Stats.Rule = "grid: output counts {0,1,2,251,252,253,254} (identical P2PKH or data outputs; a mixed data/P2PKH pair for the small counts) x 9 quotes (1/20, 1/2, 1, 5, 50 sat/byte, unequal std/data) x 1..3 P2PKH inputs (some already signed) x destinations {address, P2PKH script, 1-byte, 200-byte, 252..300-byte, data script, existing index} x amount relations {insufficient, fee-1, =fee, fee+dust, fee+dust+1, ample} computed from the fee a change output would require (quick tier: at 252 and 253 outputs every quote x destination with both sides of the dust boundary (fee+dust: no change, fee+dust+1: 2-satoshi change), at 251 and 254 a rotating third of the destinations; thorough: the full grid); plus bad address, index out of range / wrapping negative, nil or unsupported previous script, missing fee type, zero denominator, wrapping fee products and totals. distinct = distinct (tx, quote, destination); non-trivial = at least one input"
+	c.Stats.Rule = "grid: output counts {0,1,2,251,252,253,254} (identical P2PKH or data outputs; a mixed data/P2PKH pair for the small counts) x 9 quotes (1/20, 1/2, 1, 5, 50 sat/byte, unequal std/data) x 1..3 P2PKH inputs (some already signed) x destinations {address, P2PKH script, 1-byte, 200-byte, 252..300-byte, data script, existing index} x amount relations {insufficient, fee-1, =fee, fee+dust, fee+dust+1, ample} computed from the fee a change output would require (quick tier: at 252 and 253 outputs every quote x destination at fee+dust+1 (a 2-satoshi change output) and a third of them also at fee+dust (no change), at 251 and 254 a rotating third of the destinations; thorough: the full grid); plus bad address, index out of range / wrapping negative, nil or unsupported previous script, missing fee type, zero denominator, wrapping fee products and totals. distinct = distinct (tx, quote, destination); non-trivial = at least one input"
 	c.Finish()
 }
